@@ -339,17 +339,22 @@ def r11_7(ctx: Ctx, rule: str = "R11.7") -> None:
                      and any(k.arg == "mode" and isinstance(k.value, ast.Constant) and "w" in str(k.value.value) for k in it.context_expr.keywords)]
             for c in [c for st in w.body for c in ast.walk(st) if isinstance(c, ast.Call) and attr_tail(c) == "decompress" and len(c.args) > 2 and isinstance(c.args[2], ast.Name) and c.args[2].id in sinks]:
                 m += 1
+                ctx.check(_crc_handler_unlinks(es, c, broad=True), rule, es, c, "ANY failure while a member is decoded into its file removes that file",
+                          "the clean-up around the decode into the member's file catches CrcError only: with a wrong password and a compressing chain (LZMA2+7zAES, the default) the "
+                          "decoder fails with LZMAError / zlib.error / DecompressionError, the file opened with 'wb' stays behind - an existing correct copy truncated to nothing, or "
+                          "decoded garbage under the member's name", construct="decoder error leaves the file")
                 ctx.check(_crc_handler_unlinks(es, c), rule, es, c, "a folder CRC mismatch raised while a member is written removes that member's file",
                           "Worker.decompress raises the folder-level CrcError from inside `with fileish.open('wb')`, before the member-level comparison and its unlink: where the digest is "
                           "the folder CRC (wrong password on Copy+7zAES, damage) the wrong bytes stay on disk under the member's name", construct="folder CrcError leaves the file")
         ctx.floor(rule, m, 1, "decodes into a real output file in _extract_single")
 
 
-def _crc_handler_unlinks(es, node: ast.AST) -> bool:
+def _crc_handler_unlinks(es, node: ast.AST, broad: bool = False) -> bool:
+    want = {"Exception", "BaseException"} if broad else {"CrcError", "ArchiveError", "Exception", "BaseException"}
     for t in [t for t in walk(es.node) if isinstance(t, ast.Try) and any(node is x for st in t.body for x in ast.walk(st))]:
         for h in t.handlers:
             names = {x.id for x in ast.walk(h.type) if isinstance(x, ast.Name)} if h.type is not None else {"BaseException"}
-            if names & {"CrcError", "ArchiveError", "Exception", "BaseException"} and any(isinstance(x, ast.Call) and attr_tail(x) in ("unlink", "remove") for x in ast.walk(h)) \
+            if names & want and any(isinstance(x, ast.Call) and attr_tail(x) in ("unlink", "remove") for x in ast.walk(h)) \
                     and h.body and isinstance(h.body[-1], ast.Raise):
                 return True
     return False
@@ -370,7 +375,34 @@ def r11_8(ctx: Ctx) -> None:
               "header encryption is written with readable member names", construct="set_encrypted_header arms")
 
 
+def r11_9(ctx: Ctx) -> None:
+    """'with header encryption not the member names either' survives an append: the session's `header_encryption` flag comes from a constructor
+    argument that defaults to False, and the append rewrites the whole header.  (a) Header._read records that the packed header it decoded was
+    7zAES-coded (an assignment of True under `needs_password(<folder>.coders)` in the loop over the header's folders); (b) _prepare_append turns
+    `header_encryption` (and the encoded-header mode) on under that record, before the snapshot for the fallback is taken."""
+    h = ctx.prog.func("archiveinfo", "Header._read")
+    marks = [n for n in walk(h.node) if isinstance(n, ast.Assign) and isinstance(n.targets[0], ast.Attribute) and norm(n.targets[0].value) == "self" and isinstance(n.value, ast.Constant)
+             and n.value.value is True and any(pol and isinstance(cd, ast.Call) and attr_tail(cd) in ("needs_password", "is_crypto_id") for cd, pol in q.facts_at(h, n))]
+    ctx.check(bool(marks), "R11.9", h, marks[0] if marks else h.node, "Header._read records that the packed header was encrypted",
+              "Header._read decodes a 7zAES-coded packed header and keeps no record of it: an append session (which rewrites the whole header) cannot know that the member names "
+              "were protected", construct="encrypted header not recorded")
+    if not marks:
+        return
+    field = marks[0].targets[0].attr
+    pa = shared.szf(ctx, "_prepare_append")
+    cfg = cfg_of(pa.node)
+    on = [n for n in walk(pa.node) if isinstance(n, ast.Assign) and norm(n.targets[0]) == "self.header_encryption" and isinstance(n.value, ast.Constant) and n.value.value is True
+          and any(pol and isinstance(cd, ast.Attribute) and cd.attr == field for cd, pol in q.facts_at(pa, n))]
+    enc = [n for n in walk(pa.node) if isinstance(n, ast.Assign) and norm(n.targets[0]) == "self.encoded_header_mode" and isinstance(n.value, ast.Constant) and n.value.value is True
+           and any(pol and isinstance(cd, ast.Attribute) and cd.attr == field for cd, pol in q.facts_at(pa, n))]
+    ctx.check(bool(on) and bool(enc), "R11.9", pa, on[0] if on else pa.node, "an append to an archive with an encrypted header keeps the header encrypted",
+              f"_prepare_append does not switch `header_encryption` (and the encoded-header mode) on when the header it read was encrypted (`{field}`): "
+              "`SevenZipFile(arc, 'a', password=pw)` rewrites the header in the clear - afterwards the archive opens without a password and lists every member name, the old ones included",
+              construct="append drops header encryption")
+
+
 def run(ctx: Ctx) -> None:
+    r11_9(ctx)
     r11_8(ctx)
     r11_7(ctx)
     r11_6(ctx)
